@@ -1,131 +1,11 @@
 import BctVerif.Lemmas.MeasuresAlg
 /-!
-# Equivariance of participation coefficient, k-core / s-core peeling, k-coreness, rich club, assortativity
+# Equivariance of rich club (binary) and assortativity
 -/
 namespace Bct.Measures
 open Bct
 
 variable {n : Nat} (σ : Equiv.Perm (Fin n))
-
-/-! ### participation_coef -/
-
-theorem rankLabels_perm (ci : Vector Nat n) : rankLabels (permVec σ ci) = permVec σ (rankLabels ci) := by
-  apply vec_ext; intro i
-  simp only [rankLabels, vget_ofFn, permVec_get]
-  have h : (fun c => fany fun k => vget ci (σ k) == c) = fun c => fany fun k => vget ci k == c :=
-    funext fun c => fany_congr_perm σ _ _ (fun _ => rfl)
-  rw [h]
-
-theorem participation_perm (W : AMat Int n) (ci : Vector Nat n) :
-    participation (permA σ W) (permVec σ ci) = permVec σ (participation W ci) := by
-  apply vec_ext; intro i
-  simp only [participation, vget_ofFn, permVec_get, rankLabels_perm, rowSum_perm, permA_get]
-  have hm : (fmax fun i => vget (rankLabels ci) (σ i)) = fmax fun i => vget (rankLabels ci) i :=
-    fmax_congr_perm σ _ _ (fun _ => rfl)
-  have hs : (fun c => (fsum fun j => if W.get (σ i) (σ j) ≠ 0 ∧ vget (rankLabels ci) (σ j) = c + 1 then W.get (σ i) (σ j) else 0) *
-        (fsum fun j => if W.get (σ i) (σ j) ≠ 0 ∧ vget (rankLabels ci) (σ j) = c + 1 then W.get (σ i) (σ j) else 0)) =
-      fun c => (fsum fun j => if W.get (σ i) j ≠ 0 ∧ vget (rankLabels ci) j = c + 1 then W.get (σ i) j else 0) *
-        (fsum fun j => if W.get (σ i) j ≠ 0 ∧ vget (rankLabels ci) j = c + 1 then W.get (σ i) j else 0) := by
-    funext c
-    have : (fsum fun j => if W.get (σ i) (σ j) ≠ 0 ∧ vget (rankLabels ci) (σ j) = c + 1 then W.get (σ i) (σ j) else 0) =
-        fsum fun j => if W.get (σ i) j ≠ 0 ∧ vget (rankLabels ci) j = c + 1 then W.get (σ i) j else 0 :=
-      fsum_congr_perm σ _ _ (fun _ => rfl)
-    rw [this]
-  rw [hm, hs]
-
-/-! ### peeling (`kcore_bu`, `kcore_bd`, `score_wu`) -/
-
-theorem zeroNodes_perm (C : AMat Int n) (ff : Vector Bool n) :
-    zeroNodes (permA σ C) (permVec σ ff) = permA σ (zeroNodes C ff) := by
-  apply AMat.ext_get; intro i j; simp [zeroNodes]
-
-theorem peel_perm (deg : AMat Int n → Vector Int n) (hdeg : ∀ C, deg (permA σ C) = permVec σ (deg C))
-    (k : Int) (fuel : Nat) (C : AMat Int n) :
-    peel deg k fuel (permA σ C) = (peel deg k fuel C).map fun r => (permA σ r.1, permVec σ r.2) := by
-  induction fuel generalizing C with
-  | zero => simp [peel, Except.map]
-  | succ f ih =>
-    simp only [peel, hdeg]
-    have hff : (Vector.ofFn fun i => decide (vget (permVec σ (deg C)) i < k) && decide (vget (permVec σ (deg C)) i > 0)) =
-        permVec σ (Vector.ofFn fun i => decide (vget (deg C) i < k) && decide (vget (deg C) i > 0)) := by
-      apply vec_ext; intro i; simp
-    rw [hff]
-    have hany : (fany fun i => vget (permVec σ (Vector.ofFn fun i => decide (vget (deg C) i < k) && decide (vget (deg C) i > 0))) i) =
-        fany fun i => vget (Vector.ofFn fun i => decide (vget (deg C) i < k) && decide (vget (deg C) i > 0)) i :=
-      fany_congr_perm σ _ _ (fun i => by simp)
-    rw [hany, zeroNodes_perm, ih]
-    split <;> simp [Except.map]
-
-theorem countPos_perm (d : Vector Int n) : countPos (permVec σ d) = countPos d := by
-  unfold countPos; exact fsum_congr_perm σ _ _ (fun i => by simp)
-
-theorem kcoreOf_perm (deg : AMat Int n → Vector Int n) (hdeg : ∀ C, deg (permA σ C) = permVec σ (deg C))
-    (k : Int) (fuel : Nat) (A : AMat Int n) :
-    ((peel deg k fuel (permA σ A)).map fun r => (r.1, countPos r.2)) =
-      ((peel deg k fuel A).map fun r => (r.1, countPos r.2)).map fun r => (permA σ r.1, r.2) := by
-  rw [peel_perm σ deg hdeg]
-  cases peel deg k fuel A with
-  | error e => simp [Except.map]
-  | ok r => simp [Except.map, countPos_perm]
-
-theorem kcoreBu_perm (A : AMat Int n) (k : Int) : kcoreBu (permA σ A) k = (kcoreBu A k).map fun r => (permA σ r.1, r.2) :=
-  kcoreOf_perm σ degreesUnd (degreesUnd_perm σ) k _ A
-
-theorem kcoreBd_perm (A : AMat Int n) (k : Int) : kcoreBd (permA σ A) k = (kcoreBd A k).map fun r => (permA σ r.1, r.2) :=
-  kcoreOf_perm σ degTotal (degTotal_perm σ) k _ A
-
-theorem scoreWu_perm (A : AMat Int n) (s : Int) : scoreWu (permA σ A) s = (scoreWu A s).map fun r => (permA σ r.1, r.2) :=
-  kcoreOf_perm σ strengthsUnd (strengthsUnd_perm σ) s _ A
-
-/-! ### k-coreness centrality -/
-
-theorem corenessLoop_perm (kc : AMat Int n → Int → Except MErr (AMat Int n × Int))
-    (hkc : ∀ A k, kc (permA σ A) k = (kc A k).map fun r => (permA σ r.1, r.2))
-    (A : AMat Int n) (ks : List Nat) (cor : Vector Int n) (kn : List Int) :
-    corenessLoop kc (permA σ A) ks (permVec σ cor) kn = (corenessLoop kc A ks cor kn).map fun r => (permVec σ r.1, r.2) := by
-  induction ks generalizing cor kn with
-  | nil => simp [corenessLoop, Except.map]
-  | cons k ks ih =>
-    simp only [corenessLoop, hkc]
-    cases kc A k with
-    | error e => simp [Except.map]
-    | ok r =>
-      obtain ⟨C, knk⟩ := r
-      simp only [Except.map]
-      have hv : (Vector.ofFn fun i => if colSum (permA σ C) i > 0 then (k : Int) else vget (permVec σ cor) i) =
-          permVec σ (Vector.ofFn fun i => if colSum C i > 0 then (k : Int) else vget cor i) := by
-        apply vec_ext; intro i; simp [colSum_perm]
-      rw [hv, ih]
-      rfl
-
-theorem const_perm (c : Int) : (Vector.ofFn fun _ : Fin n => c) = permVec σ (Vector.ofFn fun _ : Fin n => c) := by
-  apply vec_ext; intro i; simp
-
-theorem kcorenessBd_perm (A : AMat Int n) :
-    kcorenessBd (permA σ A) = (kcorenessBd A).map fun r => (permVec σ r.1, r.2) := by
-  unfold kcorenessBd
-  have h := corenessLoop_perm σ kcoreBd (kcoreBd_perm σ) A (List.range n) (Vector.ofFn fun _ => 0) []
-  rw [← const_perm σ 0] at h
-  exact h
-
-theorem kcorenessBu_perm (A : AMat Int n) :
-    kcorenessBu (permA σ A) = (kcorenessBu A).map fun r => (permVec σ r.1, r.2) := by
-  simp only [kcorenessBu, mtr_perm, madd_perm]
-  have hc : (fany fun i => fany fun j => decide ((permA σ (madd A (mtr A))).get i j > 1)) =
-      fany fun i => fany fun j => decide ((madd A (mtr A)).get i j > 1) :=
-    fany2_congr_perm σ _ _ (fun i j => by simp)
-  have hA : (AMat.ofFn fun i j => if (permA σ (madd A (mtr A))).get i j > 0 then (1 : Int) else 0) =
-      permA σ (AMat.ofFn fun i j => if (madd A (mtr A)).get i j > 0 then (1 : Int) else 0) := by
-    apply AMat.ext_get; intro i j; simp
-  rw [hc, hA]
-  split
-  · have h := corenessLoop_perm σ kcoreBu (kcoreBu_perm σ) (AMat.ofFn fun i j => if (madd A (mtr A)).get i j > 0 then (1 : Int) else 0)
-      (List.range n) (Vector.ofFn fun _ => 0) []
-    rw [← const_perm σ 0] at h
-    exact h
-  · have h := corenessLoop_perm σ kcoreBu (kcoreBu_perm σ) A (List.range n) (Vector.ofFn fun _ => 0) []
-    rw [← const_perm σ 0] at h
-    exact h
 
 /-! ### rich club -/
 
